@@ -27,6 +27,9 @@ var authItems = []string{
 	"S4-rsa-sign-cert", "S4-p256-sign-cert", "S4-rsa-enc-cert", "S5-skx-other-key", "S6-skx-replayed-randoms", "S7-skx-other-enc-cert", "S8-skx-omitted", "S9-skx-malformed",
 	"S10-no-enc-key", "S11-certs-swapped", "S12-one-cert", "S13-eku-clientauth-only", "S14-keyusage-sign-cert", "S14-keyusage-enc-cert", "V1-client-callback-rejects", "S15-untrusted-ca-ships-its-root", "S15-extra-unrelated-selfsigned",
 	"C0-honest-client", "C1-no-cert", "C2-untrusted-ca", "C3-cv-other-key", "C4-cv-other-transcript", "C5-cv-omitted", "C6-selfsigned-allowed", "C7-selfsigned-cv-other-key", "C8-ifgiven-no-cert", "C9-expired", "C9-server-clock-after", "C10-eku-serverauth-only", "V2-server-callback-rejects", "C11-foreign-cert-first-own-cert-second", "C12-certificate-message-omitted",
+	"S16-dual-usage-sign-cert-enc-key-not-held",
+	"TS0-honest-server", "TS1-untrusted-root", "TS3-wrong-name", "TS10-rsa-key-not-held", "TS5-ecdhe-params-signed-by-other-key", "TS6-ecdhe-params-signature-over-other-randoms", "TS9-ecdhe-params-signature-garbage", "TS4-ecdsa-cert-for-rsa-suite",
+	"TC0-honest-client", "TC1-no-cert", "TC2-untrusted-ca", "TC3-cv-other-key", "TC4-cv-other-transcript", "TC5-cv-omitted", "TC5-cv-omitted-enc-only-cert", "TC3-cv-other-key-enc-only-cert", "TC12-certificate-message-omitted", "TC8-ifgiven-no-cert",
 	"T0-honest", "T1-wrong-name", "T2-untrusted-root", "T3-client-cert-untrusted", "T4-no-client-cert", "T5-client-cert-if-given-untrusted", "T6-ip-literal-name",
 	"M-flip-byte", "M-replace-from-session1", "M-drop", "M-duplicate", "M-swap", "M-suite-strip", "M-serverhello-suite", "M-cert-substitute", "M7-refragment(legal)", "M7-warning-alert", "clock-skew",
 }
@@ -60,6 +63,8 @@ type impRun struct {
 	WantPeer        string    // for allowed client certs: expected PeerCertificates[0]
 	VictimName      string    // ServerName of the victim client (default server.sim)
 	CallbackRejects bool      // the victim's VerifyPeerCertificate callback returns an error
+	TLS             bool      // plain TLS 1.2 victim and impostor (RSA / ECDHE_RSA suites)
+	VictimRoots     string    // TLS victim client: trusted root (default rsaCA)
 }
 
 const day = int64(24 * 3600 * 1e9)
@@ -69,11 +74,16 @@ func drawImpostor(c *simkit.Choice, ent *simkit.Stream) impRun {
 	ir.Suite = gmSuites[c.Choose(2, simkit.LScen)]
 	ir.VictimSrv = c.Bool(2, 5, simkit.LScen)
 	ir.Expect = expFail
+	if c.Bool(1, 4, simkit.LScen) {
+		ir.TLS = true
+		drawImpostorTLS(c, ent, &ir)
+		return ir
+	}
 	if !ir.VictimSrv {
 		sc := &reftls.ServerCfg{Rand: ent, Suites: []uint16{ir.Suite}, Sign: ident("srv-sign", true), Enc: ident("srv-enc", true)}
 		ir.scfg = sc
 		items := []string{"S0-honest-server", "S1-untrusted-ca", "S2-expired", "S2-not-yet-valid", "S2-client-clock-before", "S2-client-clock-after", "S2-one-expired", "S3-wrong-name", "S3-one-wrong-name", "S3-ip-literal-server-name",
-			"S4-rsa-sign-cert", "S4-p256-sign-cert", "S4-rsa-enc-cert", "S5-skx-other-key", "S6-skx-replayed-randoms", "S7-skx-other-enc-cert", "S8-skx-omitted", "S9-skx-malformed", "S10-no-enc-key", "S11-certs-swapped", "S12-one-cert", "S13-eku-clientauth-only", "S14-keyusage-sign-cert", "S14-keyusage-enc-cert", "V1-client-callback-rejects", "S15-untrusted-ca-ships-its-root", "S15-extra-unrelated-selfsigned"}
+			"S4-rsa-sign-cert", "S4-p256-sign-cert", "S4-rsa-enc-cert", "S5-skx-other-key", "S6-skx-replayed-randoms", "S7-skx-other-enc-cert", "S8-skx-omitted", "S9-skx-malformed", "S10-no-enc-key", "S11-certs-swapped", "S12-one-cert", "S13-eku-clientauth-only", "S14-keyusage-sign-cert", "S14-keyusage-enc-cert", "V1-client-callback-rejects", "S15-untrusted-ca-ships-its-root", "S15-extra-unrelated-selfsigned", "S16-dual-usage-sign-cert-enc-key-not-held"}
 		ir.Item = items[c.Choose(len(items), simkit.LFault)]
 		switch ir.Item {
 		case "S0-honest-server":
@@ -161,6 +171,17 @@ func drawImpostor(c *simkit.Choice, ent *simkit.Stream) impRun {
 			ir.Expect = expAny
 		case "V1-client-callback-rejects":
 			ir.CallbackRejects = true // honest server; the victim's VerifyPeerCertificate says no
+		case "S16-dual-usage-sign-cert-enc-key-not-held":
+			// the signing certificate also carries keyEncipherment; the impostor holds the
+			// signing key only and tries it on the ClientKeyExchange. The pre-master must
+			// have gone to the encryption certificate's key, which it does not hold.
+			sc.Sign = ident("srvdual-sign", true)
+			sc.Enc = &reftls.Identity{Chain: [][]byte{pki.DER("srvdual-enc")}, Key: pki.D("srvdual-sign")}
+			if c.Bool(1, 2, simkit.LFault) {
+				// ... and makes the key-exchange signature cover the signing certificate, in
+				// case the client takes that one for the encryption certificate
+				sc.SKXOverCert = pki.DER("srvdual-sign")
+			}
 		}
 		return ir
 	}
@@ -233,6 +254,103 @@ func drawImpostor(c *simkit.Choice, ent *simkit.Stream) impRun {
 	return ir
 }
 
+// drawImpostorTLS: the same catalogue on the plain TLS 1.2 path (RSA and ECDHE_RSA suites).
+func drawImpostorTLS(c *simkit.Choice, ent *simkit.Stream, ir *impRun) {
+	rsaSuites := []uint16{0x002f, 0x009c, 0x0035, 0x009d}
+	ecSuites := []uint16{0xc02f, 0xc030, 0xc014}
+	ir.Suite = append(rsaSuites, ecSuites...)[c.Choose(7, simkit.LScen)]
+	ecdhe := reftls.Suite(ir.Suite).ECDHE
+	rsaID := func(name string, withKey bool) *reftls.Identity {
+		id := &reftls.Identity{Chain: [][]byte{pki.DER(name)}}
+		if withKey {
+			id.RSA = refRSA(name)
+		}
+		return id
+	}
+	if !ir.VictimSrv {
+		sc := &reftls.ServerCfg{Rand: ent, Suites: []uint16{ir.Suite}, TLS12: true, Sign: rsaID("tlsrsa", true)}
+		ir.scfg = sc
+		items := []string{"TS0-honest-server", "TS1-untrusted-root", "TS3-wrong-name", "TS10-rsa-key-not-held", "TS4-ecdsa-cert-for-rsa-suite"}
+		if ecdhe {
+			items = []string{"TS0-honest-server", "TS1-untrusted-root", "TS3-wrong-name", "TS5-ecdhe-params-signed-by-other-key", "TS6-ecdhe-params-signature-over-other-randoms", "TS9-ecdhe-params-signature-garbage"}
+		}
+		ir.Item = items[c.Choose(len(items), simkit.LFault)]
+		switch ir.Item {
+		case "TS0-honest-server":
+			ir.Expect = expComplete
+		case "TS1-untrusted-root":
+			ir.VictimRoots = "caA"
+		case "TS3-wrong-name":
+			ir.VictimName = []string{"other.sim", "server2.sim", "192.0.2.7"}[c.Choose(3, simkit.LFault)]
+		case "TS10-rsa-key-not-held":
+			sc.Sign = rsaID("tlsrsa", false)
+			sc.GuessPre = append([]byte{3, 3}, drawData(c, 46)...)
+			sc.IgnoreClientFinished = true
+		case "TS4-ecdsa-cert-for-rsa-suite":
+			sc.CertList = [][]byte{pki.DER("tlsp256")}
+			sc.Sign = rsaID("tlsrsa", false)
+			sc.GuessPre = append([]byte{3, 3}, drawData(c, 46)...)
+			sc.IgnoreClientFinished = true
+		case "TS5-ecdhe-params-signed-by-other-key":
+			sc.SKXRSA = refRSA("tlsrsa2")
+		case "TS6-ecdhe-params-signature-over-other-randoms":
+			sc.SKXRandoms = [2][]byte{drawData(c, 32), drawData(c, 32)}
+		case "TS9-ecdhe-params-signature-garbage":
+			k, _ := reftls.ECDHEKey(reftls.CurveP256, ent)
+			sc.ECDHECurve = reftls.CurveP256
+			sc.ECDHEPoint = k.PublicKey().Bytes()
+			sc.SKXRaw = reftls.MarshalSKXECDHE(reftls.CurveP256, sc.ECDHEPoint, reftls.SigRSAPKCS1SHA256, drawData(c, 256))
+		}
+		return
+	}
+	cc := &reftls.ClientCfg{Rand: ent, Suites: []uint16{ir.Suite}, ServerName: "server.sim", Vers: reftls.VersionTLS12, VersSet: true, Curves: []uint16{23, 24, 25}}
+	ir.ccfg = cc
+	ir.Policy = gmtls.RequireAndVerifyClientCert
+	items := []string{"TC0-honest-client", "TC1-no-cert", "TC2-untrusted-ca", "TC3-cv-other-key", "TC4-cv-other-transcript", "TC5-cv-omitted", "TC5-cv-omitted-enc-only-cert", "TC3-cv-other-key-enc-only-cert", "TC12-certificate-message-omitted", "TC8-ifgiven-no-cert"}
+	ir.Item = items[c.Choose(len(items), simkit.LFault)]
+	verifying := []gmtls.ClientAuthType{gmtls.RequireAndVerifyClientCert, gmtls.VerifyClientCertIfGiven}
+	all := []gmtls.ClientAuthType{gmtls.RequireAndVerifyClientCert, gmtls.VerifyClientCertIfGiven, gmtls.RequireAnyClientCert, gmtls.RequestClientCert}
+	switch ir.Item {
+	case "TC0-honest-client":
+		cc.Cert = rsaID("tlsclirsa", true)
+		ir.Policy = verifying[c.Choose(2, simkit.LFault)]
+		ir.Expect = expComplete
+		ir.WantPeer = "tlsclirsa"
+	case "TC1-no-cert":
+		ir.Policy = []gmtls.ClientAuthType{gmtls.RequireAndVerifyClientCert, gmtls.RequireAnyClientCert}[c.Choose(2, simkit.LFault)]
+	case "TC2-untrusted-ca":
+		cc.Cert = rsaID("srvrsa", true)
+		ir.Policy = verifying[c.Choose(2, simkit.LFault)]
+	case "TC3-cv-other-key":
+		cc.Cert = rsaID("tlsclirsa", true)
+		cc.CertVerifyRSA = refRSA("tlsrsa2")
+		ir.Policy = all[c.Choose(4, simkit.LFault)]
+	case "TC4-cv-other-transcript":
+		cc.Cert = rsaID("tlsclirsa", true)
+		ir.NeedS1 = true
+		ir.Policy = all[c.Choose(4, simkit.LFault)]
+	case "TC5-cv-omitted":
+		cc.Cert = rsaID("tlsclirsa", false)
+		cc.OmitCertVerify = true
+		ir.Policy = all[c.Choose(4, simkit.LFault)]
+	case "TC5-cv-omitted-enc-only-cert":
+		// somebody's certified key-encipherment-only certificate, no key, no CertificateVerify
+		cc.Cert = rsaID("tlsclienc", false)
+		cc.OmitCertVerify = true
+		ir.Policy = all[c.Choose(4, simkit.LFault)]
+	case "TC3-cv-other-key-enc-only-cert":
+		cc.Cert = rsaID("tlsclienc", false)
+		cc.CertVerifyRSA = refRSA("tlsrsa2")
+		ir.Policy = all[c.Choose(4, simkit.LFault)]
+	case "TC12-certificate-message-omitted":
+		cc.IgnoreCertRequest = true
+		ir.Policy = []gmtls.ClientAuthType{gmtls.RequireAndVerifyClientCert, gmtls.RequireAnyClientCert}[c.Choose(2, simkit.LFault)]
+	case "TC8-ifgiven-no-cert":
+		ir.Policy = []gmtls.ClientAuthType{gmtls.VerifyClientCertIfGiven, gmtls.RequestClientCert}[c.Choose(2, simkit.LFault)]
+		ir.Expect = expComplete
+	}
+}
+
 func victimClientCfg(s *simkit.Sim, suite uint16, ent *simkit.Stream, skew int64) *gmtls.Config {
 	return &gmtls.Config{GMSupport: gmtls.NewGMSupport(), Rand: ent, Time: simTime(s, skew), RootCAs: pki.Pool("caA"), ServerName: "server.sim", CipherSuites: []uint16{suite}}
 }
@@ -269,7 +387,21 @@ func runAuthImpostor(c *simkit.Choice, r *simkit.Rec) {
 			reject := func(rawCerts [][]byte, chains [][]*x509.Certificate) error {
 				return errors.New("verifsim: application-level verification says no")
 			}
-			if ir.VictimSrv {
+			if ir.TLS && ir.VictimSrv {
+				vs := &gmtls.Config{Rand: entV, Time: simTime(s, skew), Certificates: []gmtls.Certificate{pki.GMStd("tlsrsa")}, CipherSuites: []uint16{ir.Suite},
+					ClientAuth: policy, ClientCAs: pki.Pool("rsaCA"), SessionTicketsDisabled: true}
+				conn = gmtls.Server(vRaw, vs)
+			} else if ir.TLS {
+				roots := "rsaCA"
+				if ir.VictimRoots != "" && tag == "2" {
+					roots = ir.VictimRoots
+				}
+				vc := &gmtls.Config{Rand: entV, Time: simTime(s, skew), RootCAs: pki.Pool(roots), ServerName: "server.sim", CipherSuites: []uint16{ir.Suite}}
+				if ir.VictimName != "" && tag == "2" {
+					vc.ServerName = ir.VictimName
+				}
+				conn = gmtls.Client(vRaw, vc)
+			} else if ir.VictimSrv {
 				vs := victimServerCfg(s, ir.Suite, entV, skew, policy)
 				if ir.CallbackRejects && tag == "2" {
 					vs.VerifyPeerCertificate = reject
@@ -326,6 +458,11 @@ func runAuthImpostor(c *simkit.Choice, r *simkit.Rec) {
 		// session 1: honest, to harvest a signature / transcript for replay
 		hs := &reftls.ServerCfg{Rand: entI, Suites: []uint16{ir.Suite}, Sign: ident("srv-sign", true), Enc: ident("srv-enc", true)}
 		hc := &reftls.ClientCfg{Rand: entI, Suites: []uint16{ir.Suite}, ServerName: "server.sim", Cert: ident("cli", true)}
+		if ir.TLS {
+			hs = &reftls.ServerCfg{Rand: entI, Suites: []uint16{ir.Suite}, TLS12: true, Sign: &reftls.Identity{Chain: [][]byte{pki.DER("tlsrsa")}, RSA: refRSA("tlsrsa")}}
+			hc = &reftls.ClientCfg{Rand: entI, Suites: []uint16{ir.Suite}, ServerName: "server.sim", Vers: reftls.VersionTLS12, VersSet: true, Curves: []uint16{23, 24, 25},
+				Cert: &reftls.Identity{Chain: [][]byte{pki.DER("tlsclirsa")}, RSA: refRSA("tlsclirsa")}}
+		}
 		runSession("1", hs, hc, 0, gmtls.RequireAndVerifyClientCert, &s1, d1)
 		s.Spawn("driver", 2, func() {
 			s.WaitFlag(d1)
@@ -405,7 +542,7 @@ func runAuthImpostor(c *simkit.Choice, r *simkit.Rec) {
 				return
 			}
 		}
-		if ir.Item == "S0-honest-server" || ir.Item == "C0-honest-client" {
+		if ir.Item == "S0-honest-server" || ir.Item == "C0-honest-client" || ir.Item == "TS0-honest-server" || ir.Item == "TC0-honest-client" {
 			r.Reach(idx(authReach, "honest-completed"))
 		} else {
 			r.Reach(idx(authReach, "allowed-completed"))
